@@ -735,32 +735,24 @@ func c17empty(c *core.Ctx) {
 // eofSiblingRule: the enum-rule scanner closes at end of input only what the schema scanner closes.
 func eofSiblingRule(R string) RuleFunc {
 	return func(c *core.Ctx) {
-		c.Rule(R, "sibling cross-check of the end-of-input handlers: every lexeme type the enum-rule scanner (processTail) closes silently at the end of the input is also closed at the end of the input by the schema scanner (Next) - literals and inline `//` annotations end with the text, a multi-line `/*` annotation does not. A list that the rule file accepts (`[1] /* tail`) must not be refused when it is written inline")
+		c.Rule(R, "sibling cross-check of the end-of-input tables (decoded from Next with its helpers evaluated in place): every lexeme type the enum-rule scanner closes silently at the end of the input is also closed at the end of the input by the schema scanner - literals and inline `//` annotations end with the text, a multi-line `/*` annotation does not. A list that the rule file accepts (`[1] /* tail`) must not be refused when it is written inline")
 		c.Floor(R, 1)
-		closers := func(fn string) map[string]bool {
-			d := c.P.FindDecl(fn)
-			out := map[string]bool{}
-			if d == nil {
-				c.Unresolved(R, fn)
+		closers := func(pkgRel, recv string) map[string]bool {
+			tab, _, ok := eofOpeners(c, R, pkgRel, recv)
+			if !ok {
+				c.Bad(R, "eof-table:"+pkgRel, "-", "end-of-input table of "+pkgRel, "undecided: the end-of-input branch could not be decoded")
 				return nil
 			}
-			ast.Inspect(d.Decl.Body, func(nd ast.Node) bool {
-				sw, ok := nd.(*ast.SwitchStmt)
-				if !ok || sw.Tag == nil || !strings.Contains(core.ExprStr(sw.Tag), "stack.Peek().Type()") {
-					return true
+			out := map[string]bool{}
+			for o, act := range tab {
+				if strings.HasPrefix(act, "emit:") {
+					out[o] = true
 				}
-				for _, cl := range sw.Body.List {
-					cc := cl.(*ast.CaseClause)
-					for _, e := range cc.List {
-						out[strings.TrimPrefix(core.ExprStr(e), "lexeme.")] = true
-					}
-				}
-				return false
-			})
+			}
 			return out
 		}
-		en := closers("(*rules/enum.scanner).processTail")
-		sc := closers("(*notations/jschema/scanner.Scanner).Next")
+		en := closers("rules/enum", "scanner")
+		sc := closers("notations/jschema/scanner", "Scanner")
 		if en == nil || sc == nil {
 			return
 		}
@@ -813,35 +805,53 @@ func slashEOFRule(R, sw string, clears []string, tail string) RuleFunc {
 		for _, fn := range clears {
 			chk(fn, first, "the mark is cleared first when the second character arrives", "the mark survives the second character: a complete annotation at the end of the text would be refused")
 		}
-		var tailPkg *packages.Package
-		if td := c.P.FindDecl(tail); td != nil {
-			tailPkg = td.Pkg
-		}
-		chk(tail, func(b *ast.BlockStmt) bool {
-			ok := false
-			for _, st := range b.List {
-				if ifs, isIf := st.(*ast.IfStmt); isIf && hasDisjunct(ifs.Cond, "s."+flag) {
-					ast.Inspect(ifs.Body, func(n ast.Node) bool {
-						switch n := n.(type) {
-						case *ast.CallExpr:
-							if core.ExprStr(n.Fun) == "panic" || neverReturns(c, core.Callee(tailPkg, n)) {
-								ok = true
-							}
-						case *ast.ReturnStmt:
-							if len(n.Results) == 2 && core.ExprStr(n.Results[1]) != "nil" && core.ExprStr(n.Results[1]) != "errEOS" {
-								ok = true
-							}
-						}
-						return true
-					})
-				}
-				if ifs, isIf := st.(*ast.IfStmt); isIf && strings.Contains(core.ExprStr(ifs.Cond), "stack.Len()") && !ok {
-					return false // the stack test comes first
-				}
+		if td := c.P.FindDecl(tail); td == nil {
+			c.Unresolved(R, tail)
+		} else {
+			pkgRel, recv := "notations/jschema/scanner", "Scanner"
+			if strings.Contains(tail, "rules/enum") {
+				pkgRel, recv = "rules/enum", "scanner"
 			}
-			return ok
-		}, "the end of the input is refused while a slash is pending", "the end of the input right after `/` is accepted")
+			ok, why := eofFlagRefused(c, R, pkgRel, recv, flag)
+			c.Check(ok, R, tail, c.P.Pos(td.Decl.Pos()), "the end of the input is refused while a slash is pending (every accepting end-of-input path knows the mark to be clear)", "the end of the input right after `/` is accepted: "+why)
+		}
 	}
+}
+
+// eofFlagRefused decides on the decoded end-of-input table of a scanner's Next (helpers evaluated
+// in place) that the end of the input is refused whenever the boolean scanner field `flag` is set:
+// every path that accepts the end of the input or emits a closing lexeme carries the fact that the
+// flag is false. It does not depend on where in Next (or in which helper) the test is written.
+func eofFlagRefused(c *core.Ctx, R, pkgRel, recv, flag string) (bool, string) {
+	m := buildScanModel(c, pkgRel)
+	eof, ok := extractEOF(c, R, m, pkgRel, recv)
+	if !ok {
+		return false, "undecided: could not decode the end-of-input branch of Next"
+	}
+	n := 0
+	for _, r := range eof {
+		if r.action == "reject" {
+			continue
+		}
+		n++
+		guarded := false
+		for _, a := range r.atoms {
+			if strings.Contains(a.Cond.Key(), "load:&s."+flag) && !strings.Contains(a.Cond.Key(), "(") && !a.Truth {
+				guarded = true
+			}
+		}
+		if !guarded {
+			var as []string
+			for _, a := range r.atoms {
+				as = append(as, a.String())
+			}
+			return false, core.F("the end of the input is accepted (%s) on a path that does not know %s to be false [%s]", r.action, flag, strings.Join(as, " && "))
+		}
+	}
+	if n == 0 {
+		return false, "undecided: no accepting end-of-input path decoded"
+	}
+	return true, ""
 }
 
 // hasDisjunct: is `want` the condition or one operand of a chain of ||?
@@ -924,25 +934,8 @@ func blockCommentEOFRule(R string) RuleFunc {
 			c.Check(ok, R, "stateMultiLineComment:clear", c.P.Pos(d.Decl.Pos()), "leaving the comment state clears blockCommentOpen", "the mark survives the end of the comment: a closed comment at the end of the text would be refused")
 		}
 		if d := find("(*notations/jschema/scanner.Scanner).Next"); d != nil {
-			ok := false
-			for _, st := range d.Decl.Body.List {
-				ifs, isIf := st.(*ast.IfStmt)
-				if !isIf {
-					continue
-				}
-				if hasDisjunct(ifs.Cond, "s.blockCommentOpen") {
-					ast.Inspect(ifs.Body, func(n ast.Node) bool {
-						if call, isC := n.(*ast.CallExpr); isC && (core.ExprStr(call.Fun) == "panic" || neverReturns(c, core.Callee(d.Pkg, call))) {
-							ok = true
-						}
-						return true
-					})
-				}
-				if strings.Contains(core.ExprStr(ifs.Cond), "stack.Len()") && !ok {
-					break
-				}
-			}
-			c.Check(ok, R, "Next:eof", c.P.Pos(d.Decl.Pos()), "Next() refuses the end of the input inside a ### comment", "the end of the input inside a ### comment is accepted")
+			ok, why := eofFlagRefused(c, R, "notations/jschema/scanner", "Scanner", "blockCommentOpen")
+			c.Check(ok, R, "Next:eof", c.P.Pos(d.Decl.Pos()), "Next() refuses the end of the input inside a ### comment (every accepting end-of-input path knows the mark to be clear)", "the end of the input inside a ### comment is accepted: "+why)
 		}
 	}
 }
